@@ -12,6 +12,7 @@ import copy
 import os
 
 import numpy as np
+from ..common import aeq  # noqa: E402
 
 from .. import build as B
 from .. import recorder, scen
@@ -131,7 +132,7 @@ def run_observers(scn):
             if len(t0) != len(tj):
                 V.append(Violation("trajectory-length", f"configuration {j} made {len(tj)} updates, configuration 0 made {len(t0)}", **where))
             for (sa, ia, dta, oa), (sb, ib, dtb, ob_) in zip(t0[:n], tj[:n]):
-                bad = [nme for nme in oa if nme in ob_ and not np.array_equal(np.asarray(oa[nme]), np.asarray(ob_[nme]))]
+                bad = [nme for nme in oa if nme in ob_ and not aeq(np.asarray(oa[nme]), np.asarray(ob_[nme]))]
                 if (sa, ia) != (sb, ib) or dta != dtb or bad:
                     V.append(Violation("trajectory-differs", f"update {sa}{ia}: configuration {j} differs from configuration 0 (dt {dta!r} vs {dtb!r}; arrays {bad})", step=ia, **where))
                     break
@@ -143,12 +144,12 @@ def run_observers(scn):
                     continue
                 ref = by_label.setdefault(fr["step"], (j, fr))
                 if ref[0] != j:
-                    bad = [nme for nme in fr["data"] if nme in ref[1]["data"] and not np.array_equal(fr["data"][nme], ref[1]["data"][nme])]
+                    bad = [nme for nme in fr["data"] if nme in ref[1]["data"] and not aeq(fr["data"][nme], ref[1]["data"][nme])]
                     if bad or fr["time"] != ref[1]["time"]:
                         V.append(Violation("frame-differs", f"frame with step label {fr['step']} differs between configurations {ref[0]} and {j}: {bad} (time {ref[1]['time']!r} vs {fr['time']!r})", step=fr["step"], k_a=scn["observers"][ref[0]]["save_every"], k_b=scn["observers"][j]["save_every"]))
                 exp = recorder.state_after(h0, fr["step"])
                 if exp is not None:
-                    bad = [nme for nme in fr["data"] if nme in exp and exp[nme] is not None and not np.array_equal(fr["data"][nme], np.asarray(exp[nme]))]
+                    bad = [nme for nme in fr["data"] if nme in exp and exp[nme] is not None and not aeq(fr["data"][nme], np.asarray(exp[nme]))]
                     if bad:
                         V.append(Violation("frame-vs-state", f"configuration {j}: frame labelled {fr['step']} is not the state after {fr['step']} updates ({bad})", step=fr["step"], k=scn["observers"][j]["save_every"]))
             # the file of explicit outputs holds what the writer was handed
@@ -156,7 +157,7 @@ def run_observers(scn):
                 ffr, _ = recorder.read_frames(h.out_path)
                 cap = [fr for fr in h.frames if fr["completed"]]
                 for a, b in zip(cap, ffr):
-                    bad = [nme for nme in a["data"] if not np.array_equal(a["data"][nme], b["data"].get(nme))]
+                    bad = [nme for nme in a["data"] if not aeq(a["data"][nme], b["data"].get(nme))]
                     if bad or a["step"] != b["step"]:
                         V.append(Violation("file-vs-writer", f"configuration {j}: file frame {b['number']} differs from what the writer was handed ({bad})"))
                         break
@@ -224,7 +225,7 @@ def run_resume(scn):
                     if exp is None:
                         V.append(Violation("resume-extra-frame", f"resumed run recorded step {fr['step']} beyond the uninterrupted run"))
                         break
-                    bad = [nme for nme in STATE if not np.array_equal(np.asarray(fr["data"][nme]), np.asarray(exp[nme]))]
+                    bad = [nme for nme in STATE if not aeq(np.asarray(fr["data"][nme]), np.asarray(exp[nme]))]
                     if bad:
                         err = max(float(np.max(np.abs(np.asarray(fr["data"][nme]) - np.asarray(exp[nme])))) for nme in bad)
                         V.append(Violation("resume-differs", f"resumed frame {fr['step']} (= step {N1 + fr['step']} of the uninterrupted run) differs in {bad} (max |diff| {err:.3g}); split {N1}+{N2}", first_frame=(fr["step"] == 0), screening=bool(base_scn["options"]["include_screening"])))
